@@ -24,6 +24,8 @@ makes the end of `if`/`let`/lambda/infix the end of their last sub-expression (s
 
 No imports besides model files.
 -/
+import GluonModel.Infix
+import GluonModel.LayoutAlgo
 namespace GluonModel.ExprGrammar
 
 structure Span where
@@ -336,5 +338,39 @@ def extent (ts : List Tok) : Option Span :=
   match firstReal ts, lastReal ts with
   | some a, some b => some ⟨a.sp.s, b.sp.e⟩
   | _, _ => none
+
+/-! ### The tie to C09's layout model (`LayoutAlgo`, read-only import) -/
+
+def kindOf : T → LayoutAlgo.Kind
+  | .kLet => .let_ | .kIn => .in_ | .kIf => .if_ | .kThen => .then_ | .kElse => .else_
+  | .lam => .lambda | .arrow => .rarrow | .eq => .equals | .lp => .lparen | .rp => .rparen
+  | .comma => .comma | .ob => .openBlock | .cb => .closeBlock
+  | _ => .other
+
+/-- real tokens on ONE line: column = absolute position = span start -/
+def toLayout (ts : List Tok) : List LayoutAlgo.Tok :=
+  ts.map fun t => ⟨kindOf t.t, ⟨1, t.sp.s, t.sp.s⟩, t.sp.e⟩
+
+/-- The layout pass (C09's model) on the real tokens of `c` laid out on one line ending at
+    `endPos`: the kinds it hands to the grammar and how it ended. -/
+def layoutKinds (c : C) (endPos : Nat) : List LayoutAlgo.Kind × LayoutAlgo.Outcome :=
+  let r := LayoutAlgo.layout (toLayout (realToks c)) ⟨.eof, ⟨1, endPos, endPos⟩, endPos⟩
+    (4 * (realToks c).length + 16)
+  (r.1.map (·.kind), r.2)
+
+/-! ### Operator chains: the tie to `Infix.reparse`
+
+An abstract operator tree `t` (grouped as the fixities dictate) over operands `arg i` is printed
+without parentheses, i.e. as its in-order chain; the grammar delivers the chain right-nested
+(`ofChain`), and `infix.rs` re-balances `flatten t` (model: `Infix.reparse`). -/
+open GluonModel.Infix in
+def ofChain (arg : Nat → C) (first : Nat) : List (Op × Nat) → C
+  | [] => arg first
+  | (o, a) :: rest => .binop (arg first) o.name dummy (ofChain arg a rest)
+
+open GluonModel.Infix in
+def ofTree (arg : Nat → C) : Tree → C
+  | .leaf a => arg a
+  | .node l o r => .binop (ofTree arg l) o.name dummy (ofTree arg r)
 
 end GluonModel.ExprGrammar
